@@ -7,6 +7,24 @@ HERE = os.path.dirname(os.path.dirname(os.path.abspath(__file__)))
 
 # property id -> (technique, level text, level note, design ref) ; only built checks are listed
 CHECKS = {
+    'C05': ('exhaustive enumeration of constructible messages over a closed JSON value alphabet, round-tripped through both '
+            'encoders on the real classes; field-wise, wire-exactness, fixpoint and error-class oracles',
+            'Every request / response / error / batch over a value alphabet closed once under list/object construction, all id '
+            'typings, all registered and several unregistered codes incl. 0, empty messages, absent vs null data, default and '
+            'custom error base class, batches of <= 3/4 elements and batch-level errors: serialise (two encoders) -> text -> '
+            'deserialise gives equal fields, the exact member sets, the registered error class, and an identical second wire form.',
+            'trusted: json.dumps/json.loads, mc/jsonstrict.py; values outside the alphabet are not covered',
+            'DESIGN.md section 5, C05'),
+    'C06': ('exhaustive product enumeration of member alphabets for from_json plus stateless DFS over all append/extend '
+            'histories of the real batch classes in lock-step with a list+set reference model (no state merging)',
+            'Full product of 17-value member alphabets for request (jsonrpc x id x method x params), response (x 19 error '
+            'shapes) and error objects, every non-object input, batches of <= 3 elements, batch-level objects: outcome is a '
+            'message or DeserializationError (IdentityError for duplicates), invalid never accepted, valid accepted with equal '
+            'fields. All append/extend/constructor histories with <= 4/5 ids over {1,2,"1",0,null}, strict on/off, both batch '
+            'classes: outcome and contents equal the model after every step (so a failed operation leaves no trace).',
+            'trusted: wire predicates mc/refmodel/wire.py; lenient points L2 (fractional ids, integral float codes), missing '
+            'response id, empty response array',
+            'DESIGN.md section 5, C06'),
     'C01': ('exhaustive enumeration of request texts (all token strings up to a length bound, the full product of member '
             'alphabets, lexical edge literals) on the real dispatchers; invariant checked on every execution',
             'Every string of <= 4/6 tokens over a 12-token JSON-RPC alphabet, the full product jsonrpc x id x method x '
